@@ -16,6 +16,12 @@ def parseDecl (s : String) : Option (SMetric × Nat) :=
     let keys ← parseTuple ks
     let p ← Hex.decode pos
     pure ({ name := name, prog := [], kind := k.toNat!, typ := t.toNat!, keys := keys, source := p, hidden := hid = "1" }, eff.toNat!)
+  | [n, k, t, ks, pos, hid, eff, bk] => do
+    let name ← Hex.decode n
+    let keys ← parseTuple ks
+    let p ← Hex.decode pos
+    let b ← Hex.decode bk
+    pure ({ name := name, prog := [], kind := k.toNat!, typ := t.toNat!, keys := keys, source := p, hidden := hid = "1", buckets := b }, eff.toNat!)
   | _ => none
 
 def parseVersion (s : String) : Option (Nat × Version) :=
